@@ -12,7 +12,7 @@
    the schema dependency (jsight-schema-core: user type compilation, examples - finding F27 lives
    there) and of encoding/json; real stack depth and wall time are measured by the search. *)
 From JS Require Import Base Bytes Scanner ScanRun Directive Core Entry C01Proofs ScanTotal StackSafe.
-From JS Require ScanTerm ScanProjectTerm.
+From JS Require ScanTerm ScanProjectTerm BuilderTerm ExpandTerm.
 From JS Require Import Expand Catalog CatalogTotal ExpandPlaced ScanPlaced.
 From JS Require ScannerProg.
 From JS Require IncludeName Inventory InventoryExpected.
@@ -87,6 +87,13 @@ Theorem C01_catalog_builder_never_reaches_an_impossible_state :
     forallb (placed None) ds = true -> forall pn, add_all read_body banned fuel c ds <> CPanic pn.
 Proof. exact add_all_never_panics. Qed.
 
+(* ... nor does it run out of fuel once the fuel exceeds the height of the forest (its only
+   recursion is the descent into the children; the handlers of the single directives have no fuel) *)
+Theorem C01_catalog_builder_does_not_run_out_of_fuel :
+  forall read_body banned fuel ds c,
+    (ExpandTerm.heights ds <= fuel)%nat -> add_all read_body banned fuel c ds <> CFuel.
+Proof. exact BuilderTerm.add_all_no_fuel. Qed.
+
 (* ... and the premise holds for whatever MACRO/PASTE expansion produces: for EVERY scanned forest
    whose MACRO directives stand at the top level (checked on every forest the model scans) and
    every macro graph, the expanded forest is nested as the table prescribes and MACRO-free - every
@@ -153,3 +160,4 @@ Print Assumptions C01_no_nil_current_directive.
 Print Assumptions C01_include_validation_total.
 Print Assumptions C01_repaired_crashes_stay_repaired.
 Print Assumptions C01_scanning_a_project_terminates.
+Print Assumptions C01_catalog_builder_does_not_run_out_of_fuel.
